@@ -15,9 +15,10 @@ def run(ctx):
     state = {"stats": {}, "header": ""}
 
     def harness(n, seed, tag):
+        # TestVerifSpkStack: real Service / Node / Config / ServiceBGPStatus reconcilers on a fake API server in front of the real controller;
         # TestVerifSpk: one observed speaker (model correspondence + fresh-speaker oracle);
         # TestVerifSpkMulti: one real controller per node, C04 oracle at quiescence
-        recs, hok, log = ctx.go_harness("speaker", ["zz_verif_bgp_test.go", "zz_verif_spk_test.go"], "TestVerifSpk(Multi)?$", n=n, seed=seed,
+        recs, hok, log = ctx.go_harness("speaker", ["zz_verif_bgp_test.go", "zz_verif_spk_test.go", "zz_verif_stack_test.go"], "TestVerifSpk(Multi|Stack)?$", n=n, seed=seed,
                                         tag=tag, extra_overlay=OVERLAY)
         # F18 belongs to C10 (its signature is reported by the eligibility oracle of the same harness)
         recs = [r for r in recs if not (r.get("t") == "fail" and r.get("sig") == "bgp-local-duplicate-address-across-nodes")]
@@ -72,7 +73,7 @@ def run(ctx):
         for k in ("ev_svc", "ev_del", "ev_cfg", "ev_cfg_orphaning", "ev_node", "ev_node_flag_change", "ev_node_first_with_services_present",
                   "ev_spk", "fresh_announces_l2", "fresh_announces_bgp", "oracle_gone_checks",
                   "elig_history_checks", "multi_histories", "multi_contested_elections", "multi_dual_address_services",
-                  "l2_interface_checks_with_lists"):
+                  "l2_interface_checks_with_lists", "stack_histories", "stack_steps_with_same_named_services", "stack_services_expected_over_bgp"):
             if st.get(k, 0) == 0:
                 raise vlib.Broken("generator degenerate: counter %r is zero: %r" % (k, st))
 
